@@ -2,8 +2,10 @@ package props
 
 import (
 	"bytes"
+	"encoding/json"
 	"fmt"
 	"reflect"
+	"strings"
 	"unsafe"
 
 	"verif/mc"
@@ -16,9 +18,14 @@ func init() {
 		Rule: "every (configuration x type-in-position x boundary value) of the universe (values at the reduced level): Unmarshal side - the input is snapshotted, decoded from a buffer with spare capacity, must be unchanged afterwards, no string / slice backing array reachable from the decoded value may intersect input[0:cap] (address ranges), " +
 			"and after the input is overwritten and re-used for another Marshal the decoded value still equals its deep copy; then, on a fresh instance: decode v from buffer A, overwrite A with the encoding of X (same shape and lengths, shifted contents), decode a new distinct Y, decode X from another buffer - it must read X (no instance state may alias A); Marshal side - the value and buf[:len] are snapshotted and must be unchanged, and the appended region must not intersect memory reachable from the value. non-trivial = value containing at least one non-empty string or slice",
 		Assumptions: []string{"address ranges are read with reflect/unsafe from the live values; map bucket storage is not inspected directly, its keys and values are (via iteration)"},
-		Work:        func(c *mc.Ctx) { enumItems(c, withRecursive(ref.Universe(c.Tier)), c11Case) },
+		Work: func(c *mc.Ctx) {
+			if c.Owns(0) {
+				c11JSONAny(c)
+			}
+			enumItems(c, withRecursive(ref.Universe(c.Tier)), c11Case)
+		},
 		Post: func(a *mc.Agg) []string {
-			return needDims(a, "ranges-checked", "scribbled", "marshal-side", "instance-state-aliasing")
+			return needDims(a, "ranges-checked", "scribbled", "marshal-side", "instance-state-aliasing", "json-any")
 		},
 	})
 }
@@ -248,4 +255,69 @@ func c11Case(c *mc.Ctx, cfg ref.Cfg, it ref.Item, v ref.V, vs string, undoc stri
 			c.Sample(map[string]string{"cfg": cfg.String(), "type": t.String(), "value": vs, "bytes": hx(data), "ranges_checked": fmt.Sprint(len(dr))})
 		}
 	})
+}
+
+// c11JSONAny: the JSON-any codecs (map[string]any / []any) hand back strings, json.Numbers and
+// map keys; none of them may be a view of the caller's input, and Marshal must not touch the value.
+func c11JSONAny(c *mc.Ctx) {
+	leaves := append(c16Leaves(), "a longer string value", json.Number("123456789012345678901234567890"), strings.Repeat("L", 200), json.Number("0."+strings.Repeat("7", 150)))
+	trees := c16Containers(leaves, 2)
+	for _, l := range leaves {
+		trees = append(trees, map[string]any{"outer key": []any{l, map[string]any{"inner key that is longer": l}}}, []any{map[string]any{"k": l}, l})
+	}
+	for ti, tree := range trees {
+		if !c.Begin(fmt.Sprintf(`{"set":"json-any","tree":%q}`, c16Norm(tree))) {
+			continue
+		}
+		c.AddEvals(1)
+		c.Count("states", 1)
+		c.Dim("json-any")
+		c.NonTrivial()
+		pre := "json-any|"
+		c.Guard(pre, func() {
+			p := c16Plenc()
+			before := c16Norm(tree)
+			var data []byte
+			var err error
+			var out any
+			switch tv := tree.(type) {
+			case map[string]any:
+				data, err = p.Marshal(nil, &tv)
+				m := map[string]any{}
+				out = &m
+			case []any:
+				data, err = p.Marshal(nil, &tv)
+				a := []any{}
+				out = &a
+			}
+			if err != nil {
+				c.Violation(pre+"marshal-error", err.Error())
+				return
+			}
+			if c16Norm(tree) != before {
+				c.Violation(pre+"marshal-modified-value", fmt.Sprintf("%s became %s", before, c16Norm(tree)))
+				return
+			}
+			buf := make([]byte, len(data), len(data)+64)
+			copy(buf, data)
+			if err := p.Unmarshal(buf, out); err != nil {
+				c.Violation(pre+"unmarshal-error", err.Error())
+				return
+			}
+			if !bytes.Equal(buf, data) {
+				c.Violation(pre+"unmarshal-modified-input", fmt.Sprintf("%s became %s", hx(data), hx(buf)))
+				return
+			}
+			n1 := c16Norm(reflect.ValueOf(out).Elem().Interface())
+			for i := range buf[:cap(buf)] {
+				buf[:cap(buf)][i] = 0xEE
+			}
+			if n2 := c16Norm(reflect.ValueOf(out).Elem().Interface()); n1 != n2 {
+				c.Violation(pre+"decoded-value-changes-when-input-is-overwritten", fmt.Sprintf("tree #%d: decoded %s, after overwriting the input buffer %s", ti, trunc200(n1), trunc200(n2)))
+				return
+			}
+			c.Ops(3)
+			c.Outcome("ok")
+		})
+	}
 }
